@@ -60,7 +60,40 @@ def exec_lines(ctx):
     return out
 
 
+def option_sessions(ctx):
+    """the real binary in an interactive session: the gate answers to -z alone, whatever other options are given"""
+    import os, sys
+    from concurrent.futures import ThreadPoolExecutor
+    sys.path.insert(0, os.path.join(os.path.dirname(os.path.dirname(os.path.abspath(__file__))), "harness"))
+    import ptyrun
+    NAMES = {0x7e: "OP_CAT", 0x7f: "OP_SUBSTR", 0x80: "OP_LEFT", 0x81: "OP_RIGHT", 0x83: "OP_INVERT", 0x84: "OP_AND", 0x85: "OP_OR", 0x86: "OP_XOR",
+             0x8d: "OP_2MUL", 0x8e: "OP_2DIV", 0x95: "OP_MUL", 0x96: "OP_DIV", 0x97: "OP_MOD", 0x98: "OP_LSHIFT", 0x99: "OP_RSHIFT"}
+    optsets = [[], ["-v"], ["--verbose"], ["-q"], ["--debug=sighash,signing"], ["-v", "-f-MINIMALDATA"], ["-z"], ["-v", "-z"], ["--allow-disabled-opcodes", "-q"]]
+    jobs = []
+    for op in R.DISABLED:
+        for i, opts in enumerate(optsets):
+            if ctx.tier == "quick" and i not in (0, 1, 6, 7) and (op + i + ctx.seed) % 3: continue
+            ar = R.ARITY[op]
+            jobs.append((op, opts, "[" + " ".join(["3", "2", "1"][:ar]) + " " + NAMES[op] + "]", "step\n" * (ar + 1) + "\x04", False))
+            jobs.append((op, opts, "[OP_0 OP_IF " + NAMES[op] + " OP_ENDIF OP_1]", "step\n" * 5 + "\x04", True))
+    def one(j):
+        op, opts, text, inp, skipped = j
+        return ptyrun.run([os.path.join(ctx.bin, "btcdeb")] + opts + [text], "tty", "tty", inp)
+    with ThreadPoolExecutor(max_workers=16) as ex:
+        res = list(ex.map(one, jobs))
+    for (op, opts, text, inp, skipped), (rc, out, err) in zip(jobs, res):
+        ctx.count("option-sessions", 1)
+        ctx.nontrivial.add("optsess:%02x:%s:%d" % (op, " ".join(opts), skipped))
+        allowed = "-z" in opts or "--allow-disabled-opcodes" in opts
+        refused = "disabled opcode" in err or "disabled opcode" in out
+        if refused == allowed or rc != 0:
+            ctx.violation("btcdeb %s '%s' ## steps" % (" ".join(opts), text),
+                          {"stream": "option-sessions", "why": "a disabled opcode must be refused exactly when --allow-disabled-opcodes is not given, whatever the other options",
+                           "opcode": "%02x" % op, "options": opts, "allowed": allowed, "refused": refused, "rc": rc, "stdout": out[-400:], "stderr": err[-400:]})
+
+
 def run(ctx):
+    option_sessions(ctx)
     ls = lines(ctx)
     impl, model, spec, bad = R.three_way(ctx, "reenabled-opcodes", ls)
     R.histogram(ctx, impl, "outcomes")
